@@ -255,7 +255,7 @@ def scenario_to_config(sc):
             elif op in ("getcur", "getcomp", "getab"):
                 q.append({"op": "get1", "b": b})
             elif op in ("write", "wait", "shutdown", "cancel", "refresh"):
-                q.append({"op": op, "n": 2} if o.get("chunks") else {"op": op})
+                q.append({"op": op, "n": 2} if o.get("chunks") else {"op": op})   # (several lines in one call are one call)
             elif op == "closerefresh":
                 return None   # a closed refresh channel (refreshes without end): not in the specification
             elif op == "delayend":
